@@ -700,3 +700,37 @@ Proof.
   - apply IH. lia.
   - destruct rem' as [|r'']; [discriminate|]. apply IH. lia.
 Qed.
+
+(* ---------------------------------------------------------------- prototext unmarshalAny *)
+Definition b2n (b : bool) : nat := if b then 1 else 0.
+Lemma tany_budget : forall evs t v e, tany evs t v e = Accept -> length evs + b2n t + b2n v + b2n e <= 3.
+Proof.
+  induction evs as [|ev evs IH]; intros t v e A.
+  - destruct t, v, e; cbn; lia.
+  - destruct ev as [| |child]; cbn [tany] in A.
+    + destruct t; [discriminate|]. destruct e; [discriminate|]. apply IH in A. cbn [length b2n] in *. lia.
+    + destruct v; [discriminate|]. destruct e; [discriminate|]. apply IH in A. cbn [length b2n] in *. lia.
+    + destruct e; [discriminate|]. destruct t; [discriminate|]. destruct child; try discriminate.
+      apply IH in A. cbn [length b2n] in *. lia.
+Qed.
+
+(* Full statement (refuted, finding FL3): an Any body that gives Any.value a value twice is rejected *)
+Lemma tany_value_twice_refuted :
+  exists evs, 2 <= value_sets evs /\ tany evs false false false = Accept.
+Proof. exists [AV; AE Accept]. split; [cbn; lia|reflexivity]. Qed.
+
+(* ... and that is the only accepted shape *)
+Lemma tany_value_twice_except_FL3 evs :
+  excl_FL3 evs = false -> 2 <= value_sets evs -> tany evs false false false <> Accept.
+Proof.
+  intros X V A. pose proof (tany_budget _ _ _ _ A) as B. cbn [b2n] in B.
+  destruct evs as [|e1 [|e2 [|e3 [|e4 r]]]]; cbn [length] in B; try lia.
+  - cbn in V. lia.
+  - destruct e1; cbn in V; lia.
+  - destruct e1 as [| |c1], e2 as [| |c2]; cbn in V; try lia; cbn in A; try discriminate.
+    + destruct c2; try discriminate.
+    + destruct c1; discriminate.
+    + destruct c1; discriminate.
+  - destruct e1 as [| |c1], e2 as [| |c2], e3 as [| |c3]; cbn in A; try discriminate;
+      try (destruct c1; discriminate); try (destruct c2; discriminate); try (destruct c3; discriminate).
+Qed.
